@@ -66,7 +66,7 @@ func (c *Ctx) finishCoverage() {
 
 // Goderive runs the generator built from the working tree in dir.
 func (c *Ctx) Goderive(dir string, args []string, extraEnv ...string) grun.Result {
-	return grun.Run(c.Env.Goderive, args, grun.Opts{Dir: dir, Env: c.Env.ScratchEnv(extraEnv...), Wall: 5 * time.Minute, CPUSecs: 90})
+	return grun.Run(c.Env.Goderive, args, grun.Opts{Dir: dir, Env: c.Env.ScratchEnv(extraEnv...), Wall: 5 * time.Minute, CPUSecs: 90, MemKB: 4000000})
 }
 
 // Go runs the go tool in a scratch module.
